@@ -51,6 +51,17 @@ class P(DockProp):
         for c in ctrs:
             c.set_records(rng, rng.randint(0, 4), T0 + S, 3 * S)
         sel = [dgen.matcher(rng, ctrs) for _ in range(rng.randint(1, 3))]
+        if i % 6 == 1:
+            # an equality matcher with a non-empty value on a label the container carries under a key that sanitising changes
+            # (com.example.role, com-example-role, 9lives): the selector can only say the sanitised name
+            cand = [(c, k) for c in ctrs for k in c.labels if dgen.key_to_label(dgen.B(k)) != dgen.B(k) and c.labels[k]]
+            if not cand:
+                ctrs[0].labels["com.example.role"] = "dotted"
+                cand = [(ctrs[0], "com.example.role")]
+            c, k = rng.choice(cand)
+            lb, v = dgen.key_to_label(dgen.B(k)), c.labels[k]
+            sel = [{"l": lb.decode(), "op": "=", "v": v, "coq": "em %s %s" % (cbytes(lb), dgen.sm_coq("=", v, None)),
+                    "pred": lambda view, lb=lb, v=v: view.get(lb, b"") == dgen.B(v)}] + sel[:rng.randint(0, 1)]
         exp = [c.id for c in dgen.selected(ctrs, sel)]
         evals = []
         # a log query
